@@ -128,3 +128,18 @@ def row_alphabet(rules, negated=False, prefix="undo"):
     if negated:
         rows = rows[:3] + [prefix + " " + r for r in rows[:2]]
     return rows
+
+
+def combined_text(named_texts, indents=(8, 12, 4)):
+    """the ACL text of several generators as annet combines it: the real RunGeneratorResult.acl_text() over
+    GeneratorPartialResult objects whose .acl is the generator's text the way generators return it - an indented
+    triple-quoted literal, each generator with its own base indentation (8, 12, 4 ... blanks)"""
+    from annet.generators.result import RunGeneratorResult
+    from annet.types import GeneratorPartialResult
+    rr = RunGeneratorResult()
+    for i, (name, text) in enumerate(named_texts):
+        ind = " " * indents[i % len(indents)]
+        literal = "\n" + "\n".join(ind + ln for ln in text.split("\n") if ln.strip()) + "\n" + ind[:-4]
+        rr.add_partial(GeneratorPartialResult(name=name, tags=[], acl=literal, acl_rules=None, acl_safe="", acl_safe_rules=None,
+                                              output="", config=None, safe_config=None, perf=None))
+    return rr.acl_text()
